@@ -594,6 +594,10 @@ class OptRun:
     # -- re-basing (DESIGN 1.4 / 1b): rename what was just proved equal to fresh variables
     def rebase(self):
         n = self.nsteps
+        if not IS_SYM and CTX.opts.get("generic_seed") is not None:
+            # generic-value replay: keep running from the state actually reached (a reachable state is one of the re-based states; fresh generic
+            # values would not satisfy the representation invariant the solver's model obeys)
+            return
         if self.cfg.get("symbolic_step"):
             # arbitrary step number: the group's counter becomes a symbolic integer k >= (steps taken so far); with the
             # arbitrary re-based state this makes the next step() one inductive step of the recurrences
@@ -767,6 +771,9 @@ def replay_record(record, make):
     o.pop("data_policy", None)
     if record.get("generic_seed") is not None:
         o["generic_seed"] = record["generic_seed"]
+    # numeric comparison on the real build: tolerance by the lowest-precision dtype the configuration computes in
+    low = {cfg.get("pdtype", "float32"), cfg.get("fdtype", "float32")}
+    o.setdefault("concrete_tol", 5e-2 if "bfloat16" in low else (5e-3 if "float16" in low else (1e-4 if "float32" in low else 1e-8)))
     CTX.reset(pins, [], o)
     CTX.mode = "concrete"
     CTX.values = vals
